@@ -161,16 +161,30 @@ def make_solver(mode='tactic'):
 
 
 def bmc_query(ts, depth, bad_names, stutter_choice, timeout_s=1500, extra_init=None, extra_step=None, any_step=True, mode='tactic',
-              stuck=None, seed=None):
+              stuck=None, seed=None, block=None):
     """is some state satisfying one of the named predicates reachable within `depth` steps?
     returns dict(result, seconds, schedule, params, verdict, step)"""
     t0 = time.time()
     prefix = None
     init_state = None
+    if seed is not None and seed.get('variants', 1) > 1 and block is None:
+        # several waypoint states of the class: the continuation is explored from each (a state already used is blocked)
+        used, last = [], None
+        for i in range(seed['variants']):
+            s1 = dict(seed, variants=1, _block=list(used))
+            last = bmc_query(ts, depth, bad_names, stutter_choice, timeout_s, extra_init, extra_step, any_step, mode, stuck, s1)
+            last['waypoint_variants'] = i + 1
+            if last['result'] != 'unsat' or 'waypoint_state' not in last:
+                if last['result'].startswith('seed-') and i > 0:
+                    last = dict(prev, waypoint_variants=i)      # no further state of the class: the earlier verdicts stand
+                return last
+            used.append(last['waypoint_state'])
+            prev = last
+        return last
     if seed is not None:
         # waypoint: first find a schedule to a state satisfying the seed predicate, then explore from that concrete
         # state (verdicts of transactions that do not exist yet stay free)
-        prefix = bmc_query(ts, seed['depth'], [seed['pred']], stutter_choice, timeout_s, seed=seed.get('seed'))
+        prefix = bmc_query(ts, seed['depth'], [seed['pred']], stutter_choice, timeout_s, seed=seed.get('seed'), block=seed.get('_block') or [])
         if prefix['result'] != 'sat':
             return {'result': 'seed-' + prefix['result'], 'build_s': prefix.get('build_s', 0), 'solve_s': prefix.get('solve_s', 0),
                     'depth': depth, 'preds': list(bad_names), 'seed': seed}
@@ -226,7 +240,17 @@ def bmc_query(ts, depth, bad_names, stutter_choice, timeout_s=1500, extra_init=N
             for k in range(depth):
                 targets.append(z3.substitute(cond, *ts.step_vars(k)))
         else:
-            targets.extend(ts.pred_at(b, k) for k in steps)
+            for k in steps:
+                t = ts.pred_at(b, k)
+                for bs in (block or []):
+                    # a waypoint state used before: this one differs from it in some non-ghost leaf
+                    diff = []
+                    for n, v in ts.state_leaves:
+                        if n in bs and not any(gh in n for gh in GHOST_LEAVES):
+                            sv = ts.svar(n, v, k)
+                            diff.append(sv != (z3.BoolVal(bool(bs[n])) if z3.is_bool(v) else z3.BitVecVal(bs[n], v.size())))
+                    t = z3.And(t, z3.Or(diff))
+                targets.append(t)
     s.add(z3.Or(targets))
     t1 = time.time()
     r = s.check()
@@ -273,6 +297,8 @@ def bmc_query(ts, depth, bad_names, stutter_choice, timeout_s=1500, extra_init=N
                     init[n] = v
             res['init'] = {n: v for n, v in init.items() if '.Verdict' in n}
             res['seed_steps'] = hk
+    if prefix is not None:
+        res['waypoint_state'] = prefix['hit_state']
     if 'states' in res and seed is None and not any(b.startswith('reach') or True for b in []):
         pass
     return res
@@ -308,6 +334,7 @@ CONTENT_CUTS = {
     'github.com/onosproject/onos-config/pkg/utils/v2/values.PathValuesToGnmiChange': 'new-of-result',
 }
 _TS = {}
+GHOST_LEAVES = ('.W.', 'MaxCommitted', 'LastMerged', 'OutOfOrder', 'SendBefore', 'SendAfter', 'SendNot', 'SendWhile', '.Got[', 'LastSetTx', '.Sets')
 TESTDIR = 'pkg/controller/v2/transaction'
 
 
